@@ -8,7 +8,7 @@ META = {
     "technique": "Coq/Coquelicot proof over R of a Num-polymorphic line-by-line model of mj_constraintUpdate_impl + "
                  "float correspondence run of the same model against the exported C function on raw arrays "
                  "(engine-produced and synthetic) + finite-difference / convexity / continuity oracles on the C output",
-    "text": "Model: Model/ConstraintUpdate.v follows mj_constraintUpdate_impl line by line (row kinds by the index ranges ne / nf, efc_type, efc_id, contact dim/mu/friction, the three zones of the elliptic cone, cone Hessian; mju_dot's summation order) and the part of mj_makeImpedance that sets efc_R / efc_D / contact.mu of frictional contacts; written once over Lib/Num and used at R (theorems) and at binary64 (run). PROVED over R for the model, for every number and composition of rows, every contact dimension, every D/R/frictionloss/mu/friction meeting cu_wf and EVERY residual vector including zone boundaries, the apex and the axis T=0: C12_gradient: the update returns a result and efc_force[k] = -d cost/d jar[k] (Coquelicot is_derive along coordinate k) for every row k; C12_C1_cost / C12_C1_force: along every coordinate line through every point the cost is differentiable and continuous and every force component is continuous, at every parameter value (so cost and force have no jump at any zone boundary); C12_C1_boundary: on a shared zone boundary the expressions of the two zones coincide for the cost and every force component (dimension-generic); C12_hessian: strictly inside the middle zone the returned H (any dim) is symmetric and H[a][b] = -d efc_force[a]/d jar[b]; C12_tangent / C12_convex: with efc_D >= 0 the total cost lies above every tangent plane cost(x) - force(x).(y-x) and is JOINTLY convex in the whole residual vector (elliptic contacts of any dimension included; 2-D cone-distance inequality + Cauchy-Schwarz on lists); C12_convex_scalar: every scalar row cost is convex. The hypotheses cu_wf are exactly friction rows D*R = 1, R > 0, frictionloss >= 0 and elliptic rows mu > 0, D[i+j]*mu^2 = D[i]*friction[j-1]^2; C12_relations_established proves that the model of mj_makeImpedance's assignment produces them, and the check verifies them (1e-11) on the efc arrays the engine produced. TIED to the code by a float run of the same Gallina definitions against the exported mj_constraintUpdate_impl on raw arrays (engine-produced arrays of mjgen models with the engine's own, random and boundary jar; synthetic compositions with dims 2..6; cost/force/H compared at 2^-30 scaled, states exactly off the boundaries) and against efc_R/efc_D/contact.mu after mj_forward. ORACLES on implementation output (failing-input search): central finite differences of the returned cost vs returned force, midpoint convexity of the total cost, Lipschitz continuity probes of cost and force across exact zone boundaries, H vs finite differences of the force. NOT PROVED: joint (multi-variable) continuity of the force (it is proved along every coordinate line; the cost itself is convex and differentiable along lines); J' f of mj_constraintUpdate (see C11 oracle); floating-point rounding.",
+    "text": "Model: Model/ConstraintUpdate.v follows mj_constraintUpdate_impl line by line (row kinds by the index ranges ne / nf, efc_type, efc_id, contact dim/mu/friction, the three zones of the elliptic cone, cone Hessian; mju_dot's summation order) and the part of mj_makeImpedance that sets efc_R / efc_D / contact.mu of frictional contacts; written once over Lib/Num and used at R (theorems) and at binary64 (run). PROVED over R for the model, for every number and composition of rows, every contact dimension, every D/R/frictionloss/mu/friction meeting cu_wf and EVERY residual vector including zone boundaries, the apex and the axis T=0: C12_gradient: the update returns a result and efc_force[k] = -d cost/d jar[k] (Coquelicot is_derive along coordinate k) for every row k; C12_C1_cost / C12_C1_force: along every coordinate line through every point the cost is differentiable and continuous and every force component is continuous, at every parameter value (so cost and force have no jump at any zone boundary); C12_C1_boundary: on a shared zone boundary the expressions of the two zones coincide for the cost and every force component (dimension-generic); C12_hessian: strictly inside the middle zone the returned H (any dim) is symmetric and H[a][b] = -d efc_force[a]/d jar[b]; C12_tangent / C12_convex: with efc_D >= 0 the total cost lies above every tangent plane cost(x) - force(x).(y-x) and is JOINTLY convex in the whole residual vector (elliptic contacts of any dimension included; 2-D cone-distance inequality + Cauchy-Schwarz on lists); C12_convex_scalar: every scalar row cost is convex. The hypotheses cu_wf are exactly friction rows D*R = 1, R > 0, frictionloss >= 0 and elliptic rows mu > 0, D[i+j]*mu^2 = D[i]*friction[j-1]^2; C12_relations_established proves that the model of mj_makeImpedance's assignment produces them, and the check verifies them (1e-11) on the efc arrays the engine produced. TIED to the code by a float run of the same Gallina definitions against the exported mj_constraintUpdate_impl on raw arrays (engine-produced arrays of mjgen models with the engine's own, random and boundary jar; synthetic compositions with dims 2..6; cost/force/H compared at 2^-30 scaled, states exactly off the boundaries) and against efc_R/efc_D/contact.mu after mj_forward. ORACLES on implementation output (failing-input search): central finite differences of the returned cost vs returned force, midpoint convexity of the total cost, convexity of the cost and monotonicity of the force on sweeps of one coordinate of an elliptic block across all three zones, Lipschitz continuity probes of cost and force across exact zone boundaries, H vs finite differences of the force. NOT PROVED: joint (multi-variable) continuity of the force (it is proved along every coordinate line; the cost itself is convex and differentiable along lines); J' f of mj_constraintUpdate (see C11 oracle); floating-point rounding.",
     "note": "Trusted: Coq kernel + std-lib real-number axioms; hand-written model Model/ConstraintUpdate.v; "
             "correspondence harness (gcc, driver c12_update.c, Coq PrimFloat evaluation). IEEE rounding is outside every theorem.",
     "assumptions": ["theorems are over the real numbers; the float run of the same definitions is compared with a scaled tolerance of 2^-30",
@@ -49,6 +49,14 @@ def run(ctx):
         for _ in range(2):
             cases.append({"cfg": cfg, "jar": CU.random_jar(rng, cfg), "flgH": 1, "tag": "random-unrelated"})
     cases.append({"cfg": CU.empty_config(), "jar": [], "flgH": 0, "tag": "nefc=0"})
+    rp = getattr(ctx, "replay", None)
+    if rp and isinstance(rp.get("case"), dict) and "jar" in rp["case"]:
+        # --replay: only the recorded case (all oracles and the correspondence run on it)
+        rc = CU.case_from_json(rp["case"])
+        if rc["tag"] == "random-unrelated":
+            cases, nrel = [rc], 0
+        else:
+            cases, nrel = [rc], 1
     outs = CU.run_raw(ctx, exe, [(c["cfg"], c["jar"], c["flgH"]) for c in cases])
     if outs is None:
         return
@@ -60,11 +68,12 @@ def run(ctx):
     CU.oracle_gradient(ctx, exe, cases[:nrel], stats, rng, per_case=(4 if quick else 6))
     CU.oracle_convexity(ctx, exe, cases[:nrel], stats, rng)
     CU.oracle_continuity(ctx, exe, [c for c in cases[:nrel] if c["tag"] == "boundary"], stats, rng)
+    CU.oracle_sweep(ctx, exe, [c for c in cases[:nrel] if c["tag"] in ("random", "engine-jar")], stats, rng, max_blocks=(300 if quick else 2500))
     CU.oracle_hessian(ctx, exe, [c for c in cases[:nrel] if c["flgH"]], stats, rng)
     tm["oracles"] = round(time.time() - t0, 1); t0 = time.time()
     # ---------------------------------------------------------------- correspondence with the Coq model
     # Coq evaluation cost is dominated by parsing float literals: bound the total number of rows sent
-    budget = 20000 if quick else 120000
+    budget = 14000 if quick else 120000
     order = sorted(range(len(cases)), key=lambda i: (cases[i]["cfg"]["nefc"] > 40, i))
     sel, tot = [], 0
     for i in order:
